@@ -719,8 +719,9 @@ func (cc *Conn) checkMyMessageID(req *pool.Message) {
 }
 
 func (cc *Conn) checkResponseCache(req *pool.Message, w *responsewriter.ResponseWriter[*Conn]) (bool, error) {
-	if req.Type() == message.NonConfirmable && (req.Code() < codes.GET || req.Code() > codes.DELETE) {
-		// Only a duplicated non-confirmable REQUEST is answered from the cache. The cached reply is
+	if req.Type() == message.NonConfirmable && (req.Code() < codes.GET || req.Code() > 31) {
+		// Only a duplicated non-confirmable REQUEST (method codes 0.01-0.31, which includes FETCH, PATCH
+		// and iPATCH of RFC 8132) is answered from the cache. The cached reply is
 		// itself re-sent as a non-confirmable message carrying the duplicate's message ID; if the
 		// peer answered such a message from its own cache again, two endpoints holding an entry
 		// for the same ID would bounce their cached replies back and forth forever.
